@@ -204,9 +204,18 @@ impl Broker {
                 None => return,
             };
 
+            #[cfg(feature = "verif-hooks")]
+            self.verif_observe_input(&ev);
+
             self.handle_event(&mut state, ev);
             self.process_loop_result(&mut state);
+
+            #[cfg(feature = "verif-hooks")]
+            self.verif_observe_state(&state, false);
         }
+
+        #[cfg(feature = "verif-hooks")]
+        self.verif_observe_state(&state, true);
 
         debug_assert!(!state.has_work_left());
         debug_assert!(self.conns.is_empty());
@@ -2500,6 +2509,128 @@ impl Broker {
                     }
                 }
             }
+        }
+    }
+}
+
+#[cfg(feature = "verif-hooks")]
+impl Broker {
+    fn verif_observe_input(&self, ev: &ConnectionEvent) {
+        use crate::verif::{TapEvent, TapInput};
+
+        if !crate::verif::is_observed() {
+            return;
+        }
+
+        let input = match ev {
+            ConnectionEvent::NewConnection(id, version, _) => TapInput::NewConnection {
+                conn: id.verif_raw(),
+                version: *version,
+            },
+
+            ConnectionEvent::ConnectionShutdown(id) => TapInput::ConnectionShutdown {
+                conn: id.verif_raw(),
+            },
+
+            ConnectionEvent::Message(id, msg) => TapInput::Message {
+                conn: id.verif_raw(),
+                msg: msg.clone(),
+            },
+
+            ConnectionEvent::ShutdownBroker => TapInput::ShutdownBroker,
+            ConnectionEvent::ShutdownIdleBroker => TapInput::ShutdownIdleBroker,
+
+            ConnectionEvent::ShutdownConnection(id) => TapInput::ShutdownConnection {
+                conn: id.verif_raw(),
+            },
+
+            #[cfg(feature = "statistics")]
+            ConnectionEvent::TakeStatistics(_) => TapInput::TakeStatistics,
+        };
+
+        crate::verif::observe(TapEvent::Input(input));
+    }
+
+    fn verif_observe_state(&self, state: &State, exit: bool) {
+        use crate::verif::{BrokerSnapshot, FunctionCallSnapshot, TapEvent};
+
+        if !crate::verif::is_observed() {
+            return;
+        }
+
+        let snapshot = Box::new(BrokerSnapshot {
+            conns: self
+                .conns
+                .iter()
+                .map(|(id, conn)| (id.verif_raw(), conn.verif_snapshot()))
+                .collect(),
+
+            obj_uuids: self.obj_uuids.iter().map(|(&c, &u)| (c, u)).collect(),
+
+            objs: self
+                .objs
+                .iter()
+                .map(|(&uuid, obj)| (uuid, obj.verif_snapshot()))
+                .collect(),
+
+            svc_uuids: self.svc_uuids.iter().map(|(&c, &v)| (c, v)).collect(),
+
+            svcs: self
+                .svcs
+                .iter()
+                .map(|(&key, svc)| (key, svc.verif_snapshot()))
+                .collect(),
+
+            function_calls: self
+                .function_calls
+                .verif_iter()
+                .map(|(serial, call)| {
+                    (
+                        serial,
+                        FunctionCallSnapshot {
+                            caller_serial: call.caller_serial,
+                            caller_conn: call.caller_conn_id.verif_raw(),
+                            callee_obj: call.callee_obj,
+                            callee_svc: call.callee_svc,
+                            aborted: call.aborted,
+                        },
+                    )
+                })
+                .collect(),
+
+            channels: self
+                .channels
+                .iter()
+                .map(|(&cookie, channel)| (cookie, channel.verif_snapshot()))
+                .collect(),
+
+            bus_listeners: self
+                .bus_listeners
+                .iter()
+                .map(|(&cookie, listener)| (cookie, listener.verif_snapshot()))
+                .collect(),
+
+            #[cfg(feature = "statistics")]
+            gauges: Some(crate::verif::GaugesSnapshot {
+                num_connections: self.statistics.num_connections,
+                num_objects: self.statistics.num_objects,
+                num_services: self.statistics.num_services,
+                num_channels: self.statistics.num_channels,
+                num_bus_listeners: self.statistics.num_bus_listeners,
+            }),
+
+            #[cfg(not(feature = "statistics"))]
+            gauges: None,
+
+            has_work_left: state.has_work_left(),
+            shutdown_now: state.shutdown_now(),
+            shutdown_idle: state.shutdown_idle(),
+        });
+
+        if exit {
+            crate::verif::observe(TapEvent::Exit(snapshot));
+        } else {
+            crate::verif::observe(TapEvent::Step(snapshot));
         }
     }
 }
